@@ -157,6 +157,9 @@ def shard(seed, n, tier, tz, fixed_lists):
             continue
         got = nexts[0] if nexts else None
         lvltag = 'L%d' % m['level']
+        if rdh.outcap_hit(ev):
+            sh.count('abandoned_at_output_cap')
+            continue
         if rdh.budget_hit(ev):
             sh.violation('C05-no-return:' + lvltag, 'a call did not return within %d stream callbacks on a well-formed archive (%s)'
                          % (c.budget, c.describe()), c.archive)
